@@ -5,6 +5,7 @@ from __future__ import annotations
 from inspect import isawaitable
 from typing import TYPE_CHECKING, Any
 
+from hypergraph.exceptions import describe_exception
 from hypergraph.nodes.base import _EMIT_SENTINEL
 from hypergraph.runners._shared.types import PauseExecution, PauseInfo
 from hypergraph.runners.async_.superstep import get_concurrency_limiter
@@ -58,7 +59,7 @@ class AsyncInterruptNodeExecutor:
                 if isawaitable(response):
                     response = await response
         except Exception as e:
-            raise RuntimeError(f"Handler for InterruptNode '{node.name}' failed: {type(e).__name__}: {e}") from e
+            raise RuntimeError(f"Handler for InterruptNode '{node.name}' failed: {type(e).__name__}: {describe_exception(e)}") from e
 
         # None return means "pause"
         if response is not None:
